@@ -181,7 +181,7 @@ func rioGen(r *rand.Rand, mode string, thorough bool) rioCase {
 			rec.Nil = true
 		}
 		rec.Sync = !c.DirectIO && r.Intn(4) == 0
-		if mode == "control" && !c.DirectIO && i > 0 && r.Intn(7) == 0 {
+		if mode == "control" && i > 0 && r.Intn(7) == 0 {
 			rec.SeekBack = r.Intn(i + 1)
 		}
 		c.Records = append(c.Records, rec)
